@@ -24,7 +24,7 @@
     Per case: (i) [v_corr]: model = observation, (ii) [v_prop]: the property's
     predicate (written from the property text, independent of the model
     functions) on the IMPLEMENTATION's observation, (iii) the finding guards. *)
-From HV Require Export Base.Prelude Base.Time C10.Model C10.Proofs.
+From HV Require Export Base.Prelude Base.Time C10.Model C10.Proofs C10.Mixed.
 Open Scope Z_scope.
 
 (** ** vocabulary of the property predicate *)
@@ -256,6 +256,69 @@ Definition hist_guards (f : fixes) (b : backend) (hk : hkind) (evs : list hevent
   | HHttp dflt => [(2, existsb (fun ev => match ev with (t, _, fr) => g_F2 f (r_exp fr) dflt t end) evs)]
   end.
 
+(** ** [CMix]: a history in which every request runs under its own rule
+    (prototype `cache_ttl` [conf] + rule-level [rule]) of one mechanism *)
+
+Definition mevent := (Z * Z * option Z * option Z * result)%type.
+
+Definition mkmev (t k : Z) (conf rule : option Z) (id : Z) (e : option Z) : mevent :=
+  (t, k, conf, rule, {| r_id := id; r_exp := e |}).
+
+Fixpoint to_mev (f : fixes) (m : mech) (prev : Z) (evs : list mevent) : list mev :=
+  match evs with
+  | [] => []
+  | (t, k, conf, rule, fr) :: r => MAdv (t - prev) :: MReq k (exec_state f m conf rule) fr 0 :: to_mev f m t r
+  end.
+
+Definition mix_run (f : fixes) (b : backend) (m : mech) (evs : list mevent) : list mout :=
+  let t0 := match evs with (t, _, _, _, _) :: _ => t | [] => 0 end in
+  runm b f m t0 [] (to_mev f m t0 evs).
+
+Fixpoint mix_corr (slack : Z) (outs : list mout) (obs : list hobs) : bool :=
+  match outs, obs with
+  | [], [] => true
+  | MHit _ _ v :: r, HHit id :: r' => (r_id v =? id) && mix_corr slack r r'
+  | MMiss _ _ _ _ None :: r, HMiss None :: r' => mix_corr slack r r'
+  | MMiss _ _ _ _ (Some s) :: r, HMiss (Some s') :: r' => between (s - slack) s' s && mix_corr slack r r'
+  | _, _ => false
+  end.
+
+Fixpoint mix_origin (id : Z) (evs : list mevent) (obs : list hobs) : option (Z * option Z * option Z) :=
+  match evs, obs with
+  | (t, _, _, _, fr) :: r, HMiss s :: r' => if r_id fr =? id then Some (t, s, r_exp fr) else mix_origin id r r'
+  | _ :: r, _ :: r' => mix_origin id r r'
+  | _, _ => None
+  end.
+
+(** the property per request: served from cache only (a) with caching not
+    disabled for THIS request's rule, (b) within the ttl handed to the cache and
+    within the payload's own lifetime, (c) not older than the ttl in force for
+    THIS request ("a configured ttl can only shorten") *)
+Fixpoint mix_prop (slack : Z) (m : mech) (all_evs : list mevent) (all_obs : list hobs)
+         (evs : list mevent) (obs : list hobs) : bool :=
+  match evs, obs with
+  | (t, _, conf, rule, _) :: r, HHit id :: r' =>
+      let cfg := spec_cfg m conf rule in
+      negb (cfg_zero cfg && negb (mech_eqb m MJwtFin)) &&
+      match mix_origin id all_evs all_obs with
+      | Some (ts, Some ttl, e) =>
+          (ts <=? t) && (0 <? ttl) && (t - ts <=? ttl + slack) &&
+          zle_opt t (option_map (fun e => limit m e + slack) e) &&
+          zle_opt (t - ts) (option_map (fun c => c + slack) cfg)
+      | _ => false
+      end && mix_prop slack m all_evs all_obs r r'
+  | (_, _, conf, rule, _) :: r, HMiss s :: r' =>
+      (if cfg_zero (spec_cfg m conf rule) && negb (mech_eqb m MJwtFin) then negb (is_some s) else true) &&
+      mix_prop slack m all_evs all_obs r r'
+  | [], [] => true
+  | _, _ => false
+  end.
+
+Definition mix_guards (f : fixes) (m : mech) (evs : list mevent) : list (Z * bool) :=
+  [(1, existsb (fun ev => match ev with (t, _, conf, rule, fr) => guard_F1 f m (exec_state f m conf rule) (r_exp fr) t end) evs);
+   (3, existsb (fun ev => match ev with (_, _, conf, rule, _) => guard_F3 f m conf rule end) evs);
+   (5, guard_F5 f m (map (fun ev => match ev with (_, _, conf, rule, _) => exec_state f m conf rule end) evs))].
+
 (** ** the case type and [check] *)
 
 Inductive case :=
@@ -264,6 +327,7 @@ Inductive case :=
         (o_nsets : Z) (o_set : option Z) (o_hit : bool)
 | CCache (b : backend) (ops : list cop)
 | CHist (b : backend) (hk : hkind) (slack xsets : Z) (evs : list hevent) (obs : list hobs)
+| CMix (b : backend) (m : mech) (slack xsets : Z) (evs : list mevent) (obs : list hobs)
 | CBroken.  (* the driver could not run the case (harness error): never passes *)
 
 Definition check (f : fixes) (c : case) : verdict :=
@@ -285,6 +349,10 @@ Definition check (f : fixes) (c : case) : verdict :=
       {| v_corr := (xsets =? 0) && hist_corr slack (hist_run f b hk evs) obs;
          v_prop := hist_prop_from slack hk evs obs evs obs;
          v_guards := guards (hist_guards f b hk evs) |}
+  | CMix b m slack xsets evs obs =>
+      {| v_corr := (xsets =? 0) && mix_corr slack (mix_run f b m evs) obs;
+         v_prop := mix_prop slack m evs obs evs obs;
+         v_guards := guards (mix_guards f m evs) |}
   | CBroken => {| v_corr := false; v_prop := true; v_guards := [] |}
   end.
 
